@@ -75,6 +75,9 @@ func VH_C19_PostsKeptNewestFirst_sym() {
 	vfsReset()
 	old := vBytes("old", 300)
 	vfs.put("/cfg/MessageBoard.txt", old)
+	if vBool("stale_temp_file_from_earlier_crash") {
+		vfs.put("/cfg/MessageBoard.txt.tmp", vBytes("stale_tmp", 900))
+	}
 	f := &FlatNews{data: append([]byte(nil), old...), filePath: "/cfg/MessageBoard.txt"}
 	p1 := vBytes("post1", 100)
 	p2 := vBytes("post2", 100)
@@ -127,4 +130,29 @@ func VH_C19_GetMsgsServesWholeBoard() {
 	res := HandleGetMsgs(cc, &t)
 	vAssert("answered", len(res) == 1 && res[0].IsReply == 1 && len(res[0].Fields) == 1)
 	vAssertEqBytes("board_served_whole", res[0].Fields[0].Data, text)
+}
+
+// A post through the protocol is stored in the board's line convention (no LF byte, whatever the body contains),
+// on top of the older posts, and that exact text is what is on disk.
+func VH_C19_PostIsStoredInBoardFormat_sym() {
+	vfsReset()
+	old := []byte("older post\r")
+	vfs.put("/cfg/MessageBoard.txt", old)
+	srv, cc := vNewServer()
+	cc.Account.Access = hotline.AccessBitmap{0xff, 0xff, 0xff, 0xff, 0xff, 0xff, 0xff, 0xff}
+	board := &FlatNews{data: append([]byte(nil), old...), filePath: "/cfg/MessageBoard.txt"}
+	srv.MessageBoard = board
+	body := vBytesEach("body", 4)
+	t := hotline.NewTransaction(hotline.TranOldPostNews, cc.ID, f(hotline.FieldData, body))
+	res := HandleTranOldPostNews(cc, &t)
+	vAssert("post_acknowledged", len(res) == 1 && res[0].IsReply == 1 && res[0].ErrorCode == [4]byte{})
+	n := len(board.data) - len(old)
+	vAssert("post_prepended", n > 0)
+	vAssertEqBytes("older_posts_kept_below", board.data[n:], old)
+	k := vInt("any_index_of_the_stored_post")
+	vAssume(k >= 0 && k < n)
+	vAssert("stored_post_has_no_line_feed", board.data[k] != 10)
+	i := vfs.find("/cfg/MessageBoard.txt")
+	vAssert("file_exists", i >= 0)
+	vAssertEqBytes("disk_is_the_served_board", vfs.data[i], board.data)
 }
